@@ -297,8 +297,11 @@ def held_obligations(res, facts, inst, ps, mname, prio, pre, post, o, msg):
         res.ob('R-HELD', inst, False, 'held list is not a container after the call: %r' % (lst1,), where)
         return
     sel = {'Last': 'last', 'High': 'max', 'Low': 'min'}[prio]
-    if mname == 'note_on':
-        full = ps['lname'] == 'full'
+    if mname == 'note_on' and ps['lname'] == 'full':
+        # a 33rd outstanding note-on is outside the scope of C04 ("at most 32 note-ons outstanding at once")
+        res.ob('R-HELD', inst + '|out of scope', True, 'note-on with 32 notes already held: not constrained by C04', where, key='R-HELD:scope:%s' % inst, nontrivial=False)
+    elif mname == 'note_on':
+        full = False
         exp_term = lst0.term if full else ('push', lst0.term, note)
         exp_len = lst0.len if full else lst0.len + 1
         res.ob('R-HELD', inst + '|list', lst1.term == exp_term and lst1.len == exp_len,
